@@ -8,27 +8,17 @@ use crate::{
 };
 use bytes::BytesMut;
 use core::{
-    ops::Range,
     pin::Pin,
     task::{Context, Poll},
 };
 use futures::{AsyncRead, AsyncWrite, AsyncWriteExt, Stream};
-use std::{io, mem};
-
-enum PacketStreamState {
-    Idle,
-    ReadPacketLen,
-    ReadPacketData,
-}
+use std::io;
 
 pub(crate) struct RxPacketStream<StreamT> {
     stream: StreamT,
     buf: BytesMut,
+    // Number of valid (received, not yet consumed) bytes at the front of `buf`.
     size: usize,
-
-    packet: Range<usize>,
-
-    state: PacketStreamState,
 }
 
 impl<StreamT> From<StreamT> for RxPacketStream<StreamT> {
@@ -37,29 +27,29 @@ impl<StreamT> From<StreamT> for RxPacketStream<StreamT> {
             stream,
             buf: BytesMut::with_capacity(1024),
             size: 0,
-            packet: 0..0,
-            state: PacketStreamState::Idle,
         }
     }
 }
 
 impl<StreamT> RxPacketStream<StreamT> {
-    fn split_borrows_mut(
-        &mut self,
-    ) -> (
-        &mut StreamT,
-        &mut BytesMut,
-        &mut usize,
-        &mut Range<usize>,
-        &mut PacketStreamState,
-    ) {
-        (
-            &mut self.stream,
-            &mut self.buf,
-            &mut self.size,
-            &mut self.packet,
-            &mut self.state,
-        )
+    /// Total length of the packet at the front of the buffer, if its fixed header
+    /// (packet type and remaining length) has been received completely.
+    fn packet_len(buf: &[u8]) -> Result<Option<usize>, ConversionError> {
+        // We need to be able to read at least fixed header and one byte of size to proceed.
+        if buf.len() < 2 {
+            return Ok(None);
+        }
+
+        // Omit packet ID, try to read the remaining length.
+        match VarSizeInt::try_from(&buf[1..]) {
+            // Fixed header (1 byte), size of Variable Byte Integer
+            // encoding the remaining length and its value.
+            Ok(remaining_len) => Ok(Some(
+                1 + remaining_len.len() + remaining_len.value() as usize,
+            )),
+            Err(ConversionError::InsufficientBufferSize(_)) => Ok(None), // Need to read more data
+            Err(err) => Err(err),
+        }
     }
 }
 
@@ -72,79 +62,38 @@ where
     fn poll_next(mut self: Pin<&mut Self>, cx: &mut Context<'_>) -> Poll<Option<Self::Item>> {
         const DEFAULT_CHUNK_SIZE: usize = 512;
 
-        let (mut stream, buf, size, packet, state) = self.split_borrows_mut();
+        let this = &mut *self;
 
-        match *state {
-            PacketStreamState::Idle => {
-                let chunk_size = if packet.end - *size < DEFAULT_CHUNK_SIZE {
-                    DEFAULT_CHUNK_SIZE
-                } else {
-                    packet.end
-                };
+        loop {
+            // Hand out the packet at the front of the buffer once it is complete.
+            let packet_len = match Self::packet_len(&this.buf[..this.size]) {
+                Ok(packet_len) => packet_len,
+                Err(_) => return Poll::Ready(None),
+            };
 
-                buf.resize(*size + chunk_size, 0);
-
-                if let Poll::Ready(result) = Pin::new(&mut stream)
-                    .poll_read(cx, &mut buf[*size..*size + chunk_size])
-                    .map(|res| res.ok().filter(|&size| size != 0 /* EOF */))
-                {
-                    if result.is_none() {
-                        return Poll::Ready(None);
-                    }
-
-                    *size += result.unwrap();
-
-                    // We need to be able to read at least fixed header and one byte of size to proceed.
-                    if *size >= 2 {
-                        *state = PacketStreamState::ReadPacketLen;
-                        return self.poll_next(cx);
-                    }
-                }
-
-                Poll::Pending
+            if let Some(packet_len) = packet_len.filter(|&len| len <= this.size) {
+                this.size -= packet_len;
+                return Poll::Ready(Some(RxPacket::try_decode(
+                    this.buf.split_to(packet_len).freeze(),
+                )));
             }
-            PacketStreamState::ReadPacketLen => {
-                // Omit packet ID, try to read the remaining length.
-                let maybe_remaining_len =
-                    VarSizeInt::try_from(&buf[1..]).map(Some).or_else(|err| {
-                        if let ConversionError::InsufficientBufferSize(_) = err {
-                            return Ok(None); // Need to read more data
-                        }
-                        Err(err)
-                    });
 
-                if maybe_remaining_len.is_err() {
-                    return Poll::Ready(None);
-                }
+            // Otherwise read more: the rest of the packet when its length is known.
+            // Pending is only ever returned straight from the underlying stream,
+            // which then holds the waker.
+            let chunk_size = packet_len
+                .map(|len| len - this.size)
+                .unwrap_or(0)
+                .max(DEFAULT_CHUNK_SIZE);
 
-                if let Some(remaining_len) = maybe_remaining_len.unwrap() {
-                    // Fixed header (1 byte), size of Variable Byte Integer
-                    // encoding the remaining length and its value.
-                    packet.start = 0;
-                    packet.end = 1 + remaining_len.len() + remaining_len.value() as usize;
-                    *state = PacketStreamState::ReadPacketData;
-                    return self.poll_next(cx);
-                }
+            this.buf.resize(this.size + chunk_size, 0);
 
-                *state = PacketStreamState::Idle;
-                self.poll_next(cx)
-            }
-            PacketStreamState::ReadPacketData => {
-                if *size < packet.end {
-                    *state = PacketStreamState::Idle;
-                    return self.poll_next(cx);
-                }
-
-                *size -= packet.len();
-                if *size != 0 {
-                    *state = PacketStreamState::ReadPacketLen;
-                } else {
-                    *state = PacketStreamState::Idle;
-                }
-
-                Poll::Ready(Some(RxPacket::try_decode(
-                    buf.split_to(mem::replace(&mut packet.end, 0)).freeze(),
-                )))
+            match Pin::new(&mut this.stream)
+                .poll_read(cx, &mut this.buf[this.size..this.size + chunk_size])
+            {
+                Poll::Ready(Ok(0)) | Poll::Ready(Err(_)) => return Poll::Ready(None), // EOF
+                Poll::Ready(Ok(size)) => this.size += size,
+                Poll::Pending => return Poll::Pending,
             }
         }
     }
